@@ -28,8 +28,8 @@ if r.returncode != 0:
     sys.exit(1)
 json.dump({'Replace': repl}, open(os.path.join(tmp, 'ov.json'), 'w'))
 PY
-VERIF_EXTRA_OVERLAY=$tmp/ov.json ./check "$id" "$tier" > build/mutant.$id.out 2>&1; rc=$?
-tail -5 build/mutant.$id.out
+VERIF_EXTRA_OVERLAY=$tmp/ov.json ./check "$id" "$tier" > build/mutant.$id.$$.out 2>&1; rc=$?
+tail -5 build/mutant.$id.$$.out; rm -f build/mutant.$id.$$.out
 case $rc in
  1) echo "MUTANT-CAUGHT $id $(basename $patch)";;
  0) echo "MUTANT-MISSED $id $(basename $patch)";;
